@@ -27,8 +27,10 @@ class Minimal:
         self._p = t
 
     def write(self, data):
+        # the documented interface says how the file grows -- by writing at its end -- and nothing about a write positioned
+        # BEHIND the end creating a zero-filled hole: a store that can only be extended at its end conforms
         if self._p > len(self._d):
-            self._d.extend(b"\0" * (self._p - len(self._d)))
+            raise OSError(22, "write behind the end of the file: this store can only be grown by writing at its end")
         self._d[self._p:self._p + len(data)] = data; self._p += len(data)
 
     def truncate(self, size=None):
@@ -55,8 +57,8 @@ class Faulty:
     """Wraps a BytesIO: the call with index fail_at (0-based, counting read/seek/tell/write/truncate/flush)
     raises IOError (once, or on every later call with sticky=True); reads stop returning data after
     stop_after bytes in total (short reads)."""
-    def __init__(self, f, fail_at=-1, stop_after=-1, sticky=True, kinds=None):
-        self.f = f; self.fail_at = fail_at; self.ops = 0; self.stop_after = stop_after
+    def __init__(self, f, fail_at=-1, stop_after=-1, sticky=True, kinds=None, err=errno.EIO):
+        self.f = f; self.fail_at = fail_at; self.ops = 0; self.stop_after = stop_after; self.err = err
         self.dataread = 0; self.closed = False; self.sticky = sticky; self.kinds = kinds; self.log = []
 
     def _chk(self, name):
@@ -65,7 +67,9 @@ class Faulty:
         self.log.append(name)
         if self.fail_at != -1 and (i == self.fail_at or (self.sticky and i > self.fail_at)):
             if self.kinds is None or name in self.kinds:
-                raise IOError(errno.EIO, "injected fault")
+                if self.err is None:
+                    raise IOError("injected fault")            # an I/O error without an errno
+                raise IOError(self.err, "injected fault")
 
     def tell(self):
         self._chk("tell"); return self.f.tell()
